@@ -114,11 +114,11 @@ def families(tier):
             for hist in hists:
                 if n == 3 and not all_reachable(n, imp, hist):
                     continue
-                behs = all_behs(n) if n < 3 else (all_behs(n, "ptw") if thorough else ["wpp", "pwp", "ppw"])
+                behs = all_behs(n) if n < 3 else (all_behs(n, "ptw") if thorough else [b for b in all_behs(n, "ptw") if b.count("w") == 1])
                 jobs.append(job(n, imp, behs, hist, pre=True, fam="overlap"))
     fams.append(("overlap", "second evaluate() issued before the job queue is drained (modules loaded+linked first): n<=2 all graphs x 4^n "
                  "behaviours x all (x!,y)" + ("; n=3 all graphs whose modules are all reachable x {p,t,w}^3 x {(a!,a),(a!,b),(b!,a)}" if thorough else
-                                              "; n=3 all graphs whose modules are all reachable x exactly one awaiting module x (a!,b)"), jobs))
+                                              "; n=3 all graphs whose modules are all reachable x the 12 behaviours of {p,t,w}^3 with exactly one awaiting module x (a!,b)"), jobs))
 
     # F3: n = 3, every graph with ordered import lists in which a and b together reach every module, history [a,a,b,b], immediate loader
     g3 = [imp for imp in graphs(3) if all_reachable(3, imp, ["a", "b"])]
